@@ -88,7 +88,7 @@ def audit(prop):
         problems.append("audit file does not elaborate: " + out[-2000:])
     # parse "'name' depends on axioms: [a, b]" / "'name' does not depend on any axioms"
     ok = 0
-    for m in re.finditer(r"'([^']+)' (does not depend on any axioms|depends on axioms: \[([^\]]*)\])", out):
+    for m in re.finditer(r"'(\S+)' (does not depend on any axioms|depends on axioms: \[([^\]]*)\])", out):
         name = m.group(1)
         axs = set(a.strip() for a in (m.group(3) or "").replace("\n", " ").split(",") if a.strip())
         bad = axs - ALLOWED_AXIOMS
